@@ -7,6 +7,7 @@ import Mathlib.Algebra.BigOperators.Ring.Finset
 import Mathlib.Algebra.Star.Basic
 import Mathlib.Algebra.Star.BigOperators
 import Mathlib.Tactic.Ring
+import Mathlib.Algebra.Ring.Defs
 import Mathlib.LinearAlgebra.Matrix.Charpoly.Basic
 import Mathlib.LinearAlgebra.Matrix.ConjTranspose
 import Mathlib.LinearAlgebra.Matrix.Trace
@@ -1611,5 +1612,78 @@ theorem compl_spectrum_model (ops : List (Mat α)) (d : Nat) (hs : Shaped ops d 
   simpa using this
 
 end specmodel
+
+section gi
+/-! ## the driver's scalars: Gaussian integers form a commutative star-ring whose operations are
+literally the core-class instances of `Toq/Core/Scalar.lean` -/
+
+theorem GI.ext' {a b : GI} (h1 : a.re = b.re) (h2 : a.im = b.im) : a = b := by
+  cases a; cases b; simp_all
+
+@[simp] theorem GI.add_re (a b : GI) : (a + b).re = a.re + b.re := rfl
+@[simp] theorem GI.add_im (a b : GI) : (a + b).im = a.im + b.im := rfl
+@[simp] theorem GI.mul_re (a b : GI) : (a * b).re = a.re * b.re - a.im * b.im := rfl
+@[simp] theorem GI.mul_im (a b : GI) : (a * b).im = a.re * b.im + a.im * b.re := rfl
+@[simp] theorem GI.zero_re : (0 : GI).re = 0 := rfl
+@[simp] theorem GI.zero_im : (0 : GI).im = 0 := rfl
+@[simp] theorem GI.one_re : (1 : GI).re = 1 := rfl
+@[simp] theorem GI.one_im : (1 : GI).im = 0 := rfl
+@[simp] theorem GI.neg_re (a : GI) : (-a).re = -a.re := rfl
+@[simp] theorem GI.neg_im (a : GI) : (-a).im = -a.im := rfl
+@[simp] theorem GI.sub_re (a b : GI) : (a - b).re = a.re - b.re := rfl
+@[simp] theorem GI.sub_im (a b : GI) : (a - b).im = a.im - b.im := rfl
+@[simp] theorem GI.conj_re (a : GI) : a.conj.re = a.re := rfl
+@[simp] theorem GI.conj_im (a : GI) : a.conj.im = -a.im := rfl
+
+scoped instance giNatCast : NatCast GI := ⟨fun n => ⟨n, 0⟩⟩
+scoped instance giIntCast : IntCast GI := ⟨fun n => ⟨n, 0⟩⟩
+@[simp] theorem GI.natCast_re (n : Nat) : ((n : GI)).re = n := rfl
+@[simp] theorem GI.natCast_im (n : Nat) : ((n : GI)).im = 0 := rfl
+@[simp] theorem GI.intCast_re (n : Int) : ((n : GI)).re = n := rfl
+@[simp] theorem GI.intCast_im (n : Int) : ((n : GI)).im = 0 := rfl
+
+scoped instance giCommRing : CommRing GI where
+  add := (· + ·)
+  mul := (· * ·)
+  zero := 0
+  one := 1
+  neg := Neg.neg
+  sub := Sub.sub
+  nsmul := nsmulRec
+  zsmul := zsmulRec
+  npow := npowRec
+  add_assoc := by intros; apply GI.ext' <;> simp <;> ring
+  zero_add := by intros; apply GI.ext' <;> simp
+  add_zero := by intros; apply GI.ext' <;> simp
+  add_comm := by intros; apply GI.ext' <;> simp <;> ring
+  left_distrib := by intros; apply GI.ext' <;> simp <;> ring
+  right_distrib := by intros; apply GI.ext' <;> simp <;> ring
+  zero_mul := by intros; apply GI.ext' <;> simp
+  mul_zero := by intros; apply GI.ext' <;> simp
+  mul_assoc := by intros; apply GI.ext' <;> simp <;> ring
+  one_mul := by intros; apply GI.ext' <;> simp
+  mul_one := by intros; apply GI.ext' <;> simp
+  neg_add_cancel := by intros; apply GI.ext' <;> simp
+  mul_comm := by intros; apply GI.ext' <;> simp <;> ring
+  sub_eq_add_neg := by intros; apply GI.ext' <;> simp <;> ring
+  natCast_zero := by apply GI.ext' <;> simp
+  natCast_succ := by intro n; apply GI.ext' <;> simp
+  intCast_ofNat := by intro n; apply GI.ext' <;> simp
+  intCast_negSucc := by intro n; apply GI.ext' <;> simp [Int.negSucc_eq]
+
+scoped instance giStarRing : StarRing GI where
+  star := GI.conj
+  star_involutive := by intro a; apply GI.ext' <;> simp
+  star_mul := by intro a b; apply GI.ext' <;> simp <;> ring
+  star_add := by intro a b; apply GI.ext' <;> simp; ring
+
+/-- the instances the compiled driver uses on `GI` are the ones the theorems are about -/
+theorem gi_instances_agree :
+    (inferInstanceAs (Add GI)) = giCommRing.toAdd ∧ (inferInstanceAs (Mul GI)) = giCommRing.toMul ∧
+    (inferInstanceAs (Zero GI)) = giCommRing.toZero ∧ (inferInstanceAs (One GI)) = giCommRing.toOne ∧
+    (instHasConjGI : HasConj GI) = starHasConj :=
+  ⟨rfl, rfl, rfl, rfl, rfl⟩
+
+end gi
 
 end Toq.ChannelOps
